@@ -980,6 +980,8 @@ class _Simu(_IObserver, _params.Updatable, ABC):
             self.Need_Update()
         elif isinstance(observable, Mesh):
             self._Check_dim_mesh_material()
+            # the nodes moved: values cached per group of elements (e.g. element mass matrices) are stale
+            clear_cached_computed_values(self)
             self.Need_Update()
         else:
             Terminal.MyPrintError("Notification not yet implemented")
